@@ -180,3 +180,13 @@ PROPERTIES["C06"] = {"run": _c06, "assumptions": ["two connection paths between 
 PROPERTIES["C03"] = {"run": _sched(_c03_monitor, extra=_c03_replays), "assumptions": SCHED_ASSUME + [
     "at most one connection per (source entity, destination entity, destination attribute)",
     "the refinement of whole runs to the history specification is decided by the specification monitor on implementation traces, not by a theorem; five classes of scenarios are known findings (known_findings.json)"]}
+
+
+def _c16_monitor(sc, c, outcome):
+    import monitors_sched as ms
+    return ms.mon_c16(sc, c, outcome)
+
+
+PROPERTIES["C16"] = {"run": _sched(_c16_monitor, async_req=True), "assumptions": SCHED_ASSUME + [
+    "the data path of an asynchronous get_data (cache lookup / direct query of the source) is not modelled, only its admission check",
+    "no ordinary connection feeds the same (source entity, destination entity, attribute) key as a set_data call"]}
